@@ -863,7 +863,14 @@ class C17(Property):
         "refine_step", "Inv_step", "refine_run", "read_is_overlay_all",
         "c17_histories_from", "c17_histories_partial", "c17_results_partial",
         "histGuard_rejects_witnesses", "witnesses_trip_own_guard",
+    )] + ["Flatland.C17.Frames.Proofs." + t for t in (
+        # the frame MECHANISM of properties.py (lean/Flatland/C17Frames.lean) against model A
+        "pull_frames", "pull_state", "read_cutF", "pwalk_sim", "Sim_mat", "Sim_pull", "Sim_init",
+        "classRead_refines", "lazy_is_unobservable_reads",
+        "pull_inv", "baseFrame_inv", "writeRef_inv", "writeBase_inv",
+        "baseFrame_alias_breaks", "aliasInitial_fails",
     )]
+    extra_proof_modules = ["Proofs.C17Frames"]
     level_text = "proof (partial: sentence 1 over histories is refuted in full and proved for all histories outside the three open findings)"
     level_note = ("PROVED for every store/history of the model: non-interference (no_upward_leak, step_untouched, "
                   "no_upward_leak_history), reading = overlay of the frames of the chain (read_is_overlay_*, read_is_overlay_all), "
@@ -880,17 +887,35 @@ class C17(Property):
                   "method call through any class / attached-instance view returns what a dict holding the reference mapping "
                   "returns.  histGuard_rejects_witnesses / witnesses_trip_own_guard: each of the three negation witnesses is "
                   "rejected by its own guard component only.  The run-time check stepAgrees of Run/C17.lean is now redundant "
-                  "with refine_step (kept as a cross-check of the compiled model)")
+                  "with refine_step (kept as a cross-check of the compiled model).  "
+                  "FRAME MECHANISM (C17Frames.lean: Properties.map filled lazily — _frames as a generator pulled by its "
+                  "consumer, _base_frame, initial_set as a cell, slots vs Properties objects): PROVED — the read path refines "
+                  "model A: classRead_refines (every read-only method through a class view, computed over exactly the frames "
+                  "its consumer pulls, returns model A's result, and the simulation relation Sim to the SAME model-A state "
+                  "survives the materialisation it may perform; pull_frames, pull_state, read_cutF, pwalk_sim, Sim_mat), "
+                  "lazy_is_unobservable_reads (any sequence of such reads in any order), Sim_init; invariants NoAlias / "
+                  "InitialImmutable kept by read path, _base_frame and the frame mutation (pull_inv, baseFrame_inv, "
+                  "writeRef_inv, writeBase_inv); the aliasing counter-model (seeded C17-base-frame-alias-initial) breaks the "
+                  "invariant and the correspondence on a concrete history (baseFrame_alias_breaks, aliasInitial_fails).  NOT "
+                  "proved: the step refinement for WRITES, instance views and class-creating commands of the mechanism model "
+                  "(frames_step_refines / frames_run_refines in full) — checked per case instead: the runner executes the "
+                  "mechanism model next to model A on every case (results and every view; spec_agrees=false on a difference) "
+                  "and its materialised-frame set after every command is compared with the keys of the real Properties.map")
     technique = "Lean 4 model + invariants + refinement to a layered-store specification; differential testing against /repo"
     trusted_base = [
         "Python's class machinery (type(), __mro__, attribute lookup of data descriptors, instance __dict__) is the "
         "modelled boundary: the model takes the MRO of a class as given and resolves `cls.properties` to the first "
         "class of the MRO that has a Properties object in its __dict__",
         "WeakKeyDictionary: the harness keeps every class alive, so no frame is dropped; `setdefault(cls, initial_set)` "
-        "is modelled as 'the frame of an owning class IS the initial_set dict'",
+        "is modelled as 'the frame of an owning class IS the initial_set dict' in model A; the mechanism model "
+        "(C17Frames.lean) has the map, its lazy filling and the copy of initial_set explicitly",
         "a detached instance's mapping is a CPython dict (modelled with dict semantics, not proved against C)",
     ]
     assumptions = [
+        "mechanism model: the set of classes that have a frame in Properties.map is read from the real objects (internal "
+        "state; descriptor found in the class __dict__s along the MRO, `cls in descriptor.map`) ONLY for the comparison of "
+        "the materialisation order; the oracle stays on public behaviour.  With root='named' class 0 stands for Element "
+        "(the owner) in the models and is left out of that comparison",
         "keys are str, values None/int/str (no key/value whose == or hash is user-defined; the Deleted symbol is never stored by the caller)",
         "`Cls.properties = x` (rebinding the class attribute by hand) is not an operation of the property",
         "a Properties object handed to several classes (using_shared) is modelled as one descriptor per class with the "
@@ -909,7 +934,8 @@ class C17(Property):
             "in 3 of 4 histories the caller also HOLDS view objects (fetched once, before most classes were first written "
             "through) and 15-50% of the later commands and all snapshots go through the held objects; keys from an alphabet of 1-10 (so collisions and re-use of deleted keys are the norm); after every command every "
             "view is read with items() and compared with the Lean model (order included) and with the reference overlay "
-            "(plus get/in/[]/==/!=/bool/copy/keys/values coherence); non-trivial = at least 3 mutating ops of 2 kinds "
+            "(plus get/in/[]/==/!=/bool/copy/keys/values coherence); after every command (before the observer reads) "
+            "the set of classes with a materialised frame in Properties.map is compared with the mechanism model's; non-trivial = at least 3 mutating ops of 2 kinds "
             "through 2 views and a tombstone somewhere; distinct = distinct canonical case JSON")
     exhaustive_note = ("every history of length <= 2 (quick) / <= 3 (thorough) over 6 mutating ops x 6 views "
                        "(R <- A <- B, sibling A2, two instances of B), one key")
